@@ -229,16 +229,53 @@ def _same_generic_text(tm, ti, uris, binds):
     return len(a) == len(b) and all(_same_token(x, y, uris, binds) for x, y in zip(a, b))
 
 
+def _same_attr_value(vm, vi, uris, binds):
+    """a value of an `Attributes` map / of a generic element's attributes: `parse_any_attribute` turns
+    `p:rest` into `{uri}rest` exactly when `p` is bound where the attribute stands.  The abstract writer
+    binds `q0, q1, …`, the real ones `ns0, …` (and `xs`, `xsi` on demand): the two answers are the same
+    rule applied to two prefix allocations when one side kept `p:rest`, the other resolved it, and `p`
+    is bound to that namespace on the resolving side only"""
+    if vm == vi:
+        return True
+    if not (isinstance(vm, str) and isinstance(vi, str)):
+        return False
+
+    def split(v):
+        p, sep, rest = v.partition(":")
+        return (p, rest) if sep and p and rest and not v.startswith("{") else None
+
+    def clark(v):
+        return (v[1:].split("}", 1)) if v.startswith("{") and "}" in v else None
+
+    model_binds = {"q%d" % k: u for k, u in enumerate(uris)}
+    pm, ci = split(vm), clark(vi)
+    if pm and ci and pm[1] == ci[1]:   # the code resolved a prefix the model does not bind
+        return pm[0] not in model_binds and ci[0] in binds.get(pm[0], [])
+    cm, pi = clark(vm), split(vi)
+    if cm and pi and cm[1] == pi[1]:   # the model resolved one of its own prefixes
+        return model_binds.get(pi[0]) == cm[0] and pi[0] not in binds
+    return False
+
+
+def _same_attr_pairs(pm, pi, uris, binds):
+    return (isinstance(pm, list) and isinstance(pi, list) and len(pm) == len(pi)
+            and all(x[0] == y[0] and _same_attr_value(x[1], y[1], uris, binds) for x, y in zip(pm, pi)))
+
+
 def _same_denoted(m, i, uris, binds):
-    """equality of two parsed values, strict everywhere but in the text of generic elements"""
+    """equality of two parsed values, strict everywhere but in the text and the attribute values of
+    generic elements and in the values of `Attributes` maps (prefix names, see above)"""
     if isinstance(m, dict) and isinstance(i, dict):
         if m.keys() != i.keys():
             return False
         if set(m) == {"any"} and isinstance(m["any"], dict) and isinstance(i["any"], dict):
             am, ai = m["any"], i["any"]
-            return (am.keys() == ai.keys() and all(am[k] == ai[k] for k in am if k not in ("text", "children"))
+            return (am.keys() == ai.keys() and all(am[k] == ai[k] for k in am if k not in ("text", "children", "attrs"))
                     and _same_generic_text(am["text"], ai["text"], uris, binds)
+                    and _same_attr_pairs(am["attrs"], ai["attrs"], uris, binds)
                     and _same_denoted(am["children"], ai["children"], uris, binds))
+        if set(m) == {"attrs"}:
+            return _same_attr_pairs(m["attrs"], i["attrs"], uris, binds)
         return all(_same_denoted(m[k], i[k], uris, binds) for k in m)
     if isinstance(m, list) and isinstance(i, list):
         return len(m) == len(i) and all(_same_denoted(x, y, uris, binds) for x, y in zip(m, i))
